@@ -309,3 +309,14 @@ func VerifC13_Total() {
 		sym.Assert(rec.Timestamp == fallback, "unshaped value leaves the fallback time")
 	}
 }
+
+// VerifC07_ParseTimeAnyBytes: the parseTime stage read as a robustness claim: no panic for any string.
+//
+//verif:stub time.Date verifStubDate
+//verif:stub time.Parse verifStubParse
+//verif:stub time.FixedZone verifStubFixedZone
+//verif:stub (time.Time).Zone verifStubZone
+//verif:stub strconv.ParseFloat verifStubParseFloat
+//verif:reach error-counted timestamp-set
+//verif:unwind 80
+func VerifC07_ParseTimeAnyBytes() { VerifC13_Total() }
